@@ -135,17 +135,18 @@ def run_cases(run, cases, label, use_oracle=True):
                             break
                 late_variant = False
                 if norm(ref.log) != norm(r["calls"]) and not known_variant:
-                    for lk in ((True, None, False), (False, True, False), (False, False, True)):
+                    for lk in ((True, None, False, False), (False, True, False, False), (False, False, True, False), (False, False, False, True)):
                         if lk[0] and c["opts"].get("parserfns", True):
                             continue
                         for kl, sw, _nm in kl_sw_variants(True):
-                            rk = mkref(lib_for_ref, kl, sw, c["opts"], leak=lk[0], resplit=lk[1], switch_link_eq=lk[2])
+                            rk = mkref(lib_for_ref, kl, sw, c["opts"], leak=lk[0], resplit=lk[1], switch_link_eq=lk[2], link_name_pos=lk[3])
                             rk.ev(c["page_ast"], None)
                             rk.log = [[x[0], x[1], [[k, uq(rk.finish(v) if isinstance(v, str) else v)] for k, v in x[2]]]
                                       + [uq(rk.finish(y) if isinstance(y, str) else y) for y in x[3:]] for x in rk.log]
                             if not rk.unsupported and norm(rk.log) == norm(r["calls"]):
                                 late_variant = "c13:unexpanded-parser-function-args-expanded-late" if lk[0] else (
                                     "c04:switch-case-split-at-equals-inside-link" if lk[2] else
+                                    "c04:argument-name-with-link-is-positional-in-template-bodies" if lk[3] else
                                     "c04:substituted-value-with-equals-is-resplit")
                                 break
                         if late_variant:
@@ -175,15 +176,16 @@ def run_cases(run, cases, label, use_oracle=True):
                         break
                 leak_sig = None
                 if not sig:
-                    for lk in ((True, None, False), (False, True, False), (False, False, True)):
+                    for lk in ((True, None, False, False), (False, True, False, False), (False, False, True, False), (False, False, False, True)):
                         if lk[0] and c["opts"].get("parserfns", True):
                             continue
                         for kl, sw, _nm in kl_sw_variants(True):
-                            r3 = mkref(lib_for_ref, kl, sw, c["opts"], leak=lk[0], resplit=lk[1], switch_link_eq=lk[2])
+                            r3 = mkref(lib_for_ref, kl, sw, c["opts"], leak=lk[0], resplit=lk[1], switch_link_eq=lk[2], link_name_pos=lk[3])
                             o3 = unquote_marks(r3.finish(r3.ev(c["page_ast"], None)), r["out"])
                             if not r3.unsupported and o3 == r["out"]:
                                 leak_sig = "c13:unexpanded-parser-function-args-expanded-late" if lk[0] else (
                                     "c04:switch-case-split-at-equals-inside-link" if lk[2] else
+                                    "c04:argument-name-with-link-is-positional-in-template-bodies" if lk[3] else
                                     "c04:substituted-value-with-equals-is-resplit")
                                 break
                         if leak_sig:
